@@ -71,10 +71,54 @@ let run_b args =
   | Ok (g, c) -> let buf = Buffer.create 64 in dump_green c.c_strs buf g; trace ^ " | " ^ Buffer.contents buf
   | Panic p -> trace ^ " | PANIC:" ^ panic_code p
 
+(* split a list on a separator *)
+let split_list sep l =
+  let rec go cur acc = function
+    | [] -> List.rev (List.rev cur :: acc)
+    | x :: r when x = sep -> go [] (List.rev cur :: acc) r
+    | x :: r -> go (x :: cur) acc r in
+  go [] [] l
+
+let rec preorder_ids g acc =
+  match g with
+  | GTok (id, _, _, _) -> int_of_n id :: acc
+  | GNode (id, _, _, _, cs) -> List.fold_left (fun a c -> preorder_ids c a) (int_of_n id :: acc) cs
+
+(* `H <backend> <mask> <ops> [/ <ops>]*` : a history of trees through one cache *)
+let run_h args =
+  let builds = split_list "/" (List.tl (List.tl args)) in
+  let cache = ref empty_cache in
+  let results = List.map (fun toks ->
+      let ops = List.map parse_op toks in
+      let (sf, tr) = b_run static_text hash0 (threshold ()) HeadAndChildren !debug true (new_builder !cache) [] ops in
+      let trace = String.concat "" (List.map (function None -> "." | Some p -> panic_code p) tr) in
+      cache := sf.b_cache;
+      match b_finish sf with
+      | Ok (g, c) -> cache := c; (trace, Ok g)
+      | Panic p -> (trace, Panic p)) builds in
+  let strs = !cache.c_strs in
+  let buf = Buffer.create 256 in
+  let all = ref [] in
+  List.iter (fun (trace, r) ->
+      Buffer.add_string buf trace; Buffer.add_string buf " | ";
+      (match r with
+       | Ok g -> dump_green strs buf g; all := preorder_ids g !all
+       | Panic p -> Buffer.add_string buf ("PANIC:" ^ panic_code p));
+      Buffer.add_string buf " || ") results;
+  let ids = List.rev !all in
+  let seen = Hashtbl.create 64 in
+  let renum = List.map (fun i ->
+      match Hashtbl.find_opt seen i with
+      | Some j -> j
+      | None -> let j = Hashtbl.length seen in Hashtbl.add seen i j; j) ids in
+  Buffer.add_string buf ("share " ^ String.concat "," (List.map string_of_int renum));
+  Buffer.contents buf
+
 let run_line line =
   match List.filter (fun s -> s <> "") (String.split_on_char ' ' line) with
   | [] -> ""
   | "B" :: args -> run_b args
+  | "H" :: args -> run_h args
   | k :: _ -> "?unknown-case-kind " ^ k
 
 let () =
